@@ -31,7 +31,7 @@ mod vk_array {
         }
     }
 
-    // @harness name=array_ledger_next inputs=len,c,fin scenario="kind=array c={c} ops=next,seq" props=C08,C01,C02 kind=bounded bound="len == 3; counter value c over the full usize domain"
+    // @harness name=array_ledger_next group=default,nodebug props_nodebug=C17 inputs=len,c,fin scenario="kind=array c={c} ops=next,seq" props=C08,C01,C02 kind=bounded bound="len == 3; counter value c over the full usize domain"
     #[kani::proof]
     #[kani::unwind(5)]
     fn array_ledger_next() {
@@ -60,7 +60,7 @@ mod vk_array {
         chk_ledger(len, owned_from, &delivered);
     }
 
-    // @harness name=array_ledger_chunk inputs=len,c,n,take,fin scenario="kind=array c={c} ops=chunk:{n}:{take},seq" props=C08,C01,C02,C03 kind=bounded bound="len == 3; c, n over the full usize domain (c + n <= usize::MAX); any number of chunk items consumed"
+    // @harness name=array_ledger_chunk group=default,nodebug props_nodebug=C17 inputs=len,c,n,take,fin scenario="kind=array c={c} ops=chunk:{n}:{take},seq" props=C08,C01,C02,C03 kind=bounded bound="len == 3; c, n over the full usize domain (c + n <= usize::MAX); any number of chunk items consumed"
     #[kani::proof]
     #[kani::unwind(5)]
     fn array_ledger_chunk() {
@@ -143,7 +143,7 @@ mod vk_array {
         chk_ledger(len, owned_from, &delivered);
     }
 
-    // @harness name=array_ledger_skip inputs=len,c,fin scenario="kind=array c={c} ops=skip,next,seq" props=C08,C15,C06,C10 kind=bounded bound="len == 3; c over the full usize domain"
+    // @harness name=array_ledger_skip group=default,nodebug props_nodebug=C17 inputs=len,c,fin scenario="kind=array c={c} ops=skip,next,seq" props=C08,C15,C06,C10 kind=bounded bound="len == 3; c over the full usize domain"
     #[kani::proof]
     #[kani::unwind(5)]
     fn array_ledger_skip() {
@@ -178,7 +178,7 @@ mod vk_array {
         chk_ledger(len, owned_from, &delivered);
     }
 
-    // @harness name=array_into_seq inputs=len,c scenario="kind=array c={c} ops=seq" props=C10,C08 kind=bounded bound="len == 3; c over the full usize domain"
+    // @harness name=array_into_seq group=default,nodebug props_nodebug=C17 inputs=len,c scenario="kind=array c={c} ops=seq" props=C10,C08 kind=bounded bound="len == 3; c over the full usize domain"
     #[kani::proof]
     #[kani::unwind(5)]
     fn array_into_seq() {
@@ -329,5 +329,143 @@ mod vk_array {
         kani::cover!(k0 > 0 && k0 < len, "split in the middle");
         std::mem::forget(right);
         std::mem::forget(it);
+    }
+
+    // the same operations seen at the level of the std atomics (every atomic operation on the counter is logged, whatever
+    // AtomicCounter method -- existing or new -- performed it)
+    // @harness name=array_ops_std props=C01,C04,C05,C06,C09,C10,C11 kind=bounded bound="length <= 3; chunk size and every value read symbolic over the full usize domain"
+    #[kani::proof]
+    #[kani::unwind(18)]
+    #[kani::stub(std::sync::atomic::Atomic::<usize>::fetch_add, a_faa)]
+    #[kani::stub(std::sync::atomic::Atomic::<usize>::fetch_sub, a_fsub)]
+    #[kani::stub(std::sync::atomic::Atomic::<usize>::swap, a_swap)]
+    #[kani::stub(std::sync::atomic::Atomic::<usize>::load, a_load)]
+    #[kani::stub(std::sync::atomic::Atomic::<usize>::store, a_store)]
+    fn array_ops_std() {
+        let len: usize = kani::any();
+        kani::assume(len == N);
+        let it = ConIterOfArray::new([0u64, 1, 2]);
+        st().loc_r = it.counter() as *const AtomicCounter as usize;
+        let op: u8 = kani::any();
+        kani::assume(op < 5);   // into_seq_iter / drop own the iterator: their loads are not racy, the ledger harnesses run them with the real atomics
+        let n: usize = kani::any();
+        kani::cover!(op == 2, "buffered pull");
+        kani::cover!(op == 3, "skip");
+        if op == 0 { let _ = it.next_id_and_value().map(|x| x.idx); chk_std_ops(0, 1, len); }
+        else if op == 1 { let _ = it.next_chunk(n).map(|c| c.begin_idx); chk_std_ops(0, n, len); }
+        else if op == 2 { kani::assume(n > 0); { let mut b = it.buffered_iter(n); let _ = b.next().map(|c| c.begin_idx); }; chk_std_ops(0, n, len); }
+        else if op == 3 { it.skip_to_end(); chk_std_ops(2, 0, len); }
+        else if op == 4 { let _ = it.try_get_len(); let _ = it.has_more(); chk_std_ops(1, 0, len); }
+        std::mem::forget(it);
+    }
+
+    // Iterator methods of a chunk beyond next(): nth (on which skip / step_by are built) must drop what it skips
+    // @harness name=array_chunk_nth props=C08,C15,C03 kind=bounded bound="len == 3; one chunk of any size from any counter value; nth(k) with k <= 2"
+    #[kani::proof]
+    #[kani::unwind(5)]
+    fn array_chunk_nth() {
+        let len: usize = kani::any();
+        kani::assume(len == N);
+        let it = mk(len);
+        let c: usize = kani::any();
+        let n: usize = kani::any();
+        kani::assume(n >= 1 && n <= usize::MAX - c);
+        it.counter().store(c);
+        let owned_from = if c < len { c } else { len };
+        let mut delivered = [false; N];
+        let k: usize = kani::any();
+        kani::assume(k <= 2);
+        {
+            if let Some(mut ch) = it.next_chunk(n) {
+                let l = ch.values.len();
+                let x = ch.values.nth(k);
+                kani::cover!(k == 1 && l == 3, "nth skips one element");
+                if k < l {
+                    assert!(x.is_some() && x.as_ref().unwrap().0 == c + k, "[C03 C08 chunk-nth] nth(k) of a chunk is its k-th element");
+                    assert!(ch.values.len() == l - k - 1, "[C03 chunk-nth-len] len() accounts for the elements nth consumed");
+                    delivered[c + k] = true;
+                    std::mem::forget(x);
+                } else { assert!(x.is_none(), "[C03 chunk-nth] nth past the chunk is None"); }
+            };
+        }
+        drop(it);
+        chk_ledger(len, owned_from, &delivered);
+    }
+
+    // zero-sized element type (pointer arithmetic on ZSTs degenerates: `ptr.add(k) == ptr`)
+    struct Z;
+    struct ZCount(std::cell::UnsafeCell<usize>);
+    unsafe impl Sync for ZCount {}
+    static ZDROPS: ZCount = ZCount(std::cell::UnsafeCell::new(0));
+    impl Drop for Z { fn drop(&mut self) { unsafe { *ZDROPS.0.get() += 1; } } }
+
+    // @harness name=array_zst props=C03,C08,C01 kind=bounded bound="zero-sized elements, len <= 3; one chunk of any size from any counter value, consumed 0..=3 items"
+    #[kani::proof]
+    #[kani::unwind(5)]
+    fn array_zst() {
+        let len: usize = kani::any();
+        kani::assume(len == N);
+        let it = ConIterOfArray::new([Z, Z, Z]);
+        let c: usize = kani::any();
+        let n: usize = kani::any();
+        kani::assume(n >= 1 && n <= usize::MAX - c);
+        it.counter().store(c);
+        let owned_from = if c < len { c } else { len };
+        let take: usize = kani::any();
+        let mut taken = 0usize;
+        {
+            let r = it.next_chunk(n);
+            kani::cover!(r.is_some(), "chunk of zero-sized elements");
+            match r {
+                Some(mut ch) => {
+                    let l = ch.values.len();
+                    assert!(c < len && l == clamp_end(c, n, len) - c, "[C03 C01 zst-exact-len] chunk length is min(n, len - c) also for zero-sized elements");
+                    let mut k = 0;
+                    while k < N { if k < take { if let Some(z) = ch.values.next() { assert!(k < l, "[C03 zst-exact-len] the chunk yields no more than it announced"); taken += 1; std::mem::forget(z); } else { assert!(k >= l, "[C03 C01 zst-exact-len] the chunk yields every element it announced"); } } k += 1; }
+                }
+                None => assert!(c >= len, "[C01 C03 none-iff] None only past the end"),
+            };
+        }
+        drop(it);
+        let d = unsafe { *ZDROPS.0.get() };
+        assert!(d + taken == len - owned_from, "[C08 zst-ledger] every element the iterator still owned is delivered or destroyed exactly once");
+    }
+
+    // @harness name=array_empty props=C01,C03,C05,C10,C11,C12 kind=complete
+    #[kani::proof]
+    #[kani::unwind(4)]
+    fn array_empty() {
+        let it = ConIterOfArray::<0, D>::new([]);
+        assert!(it.try_get_len() == Some(0) && it.has_more() == crate::HasMore::No, "[C11 empty-len] an empty array has nothing to yield");
+        assert!(it.next_id_and_value().is_none(), "[C01 C05 empty-next] a pull on an empty array reports the end");
+        assert!(it.next_chunk(2).is_none(), "[C01 C03 C05 empty-chunk] a chunk pull on an empty array reports the end");
+        { let mut b = it.buffered_iter(2); assert!(b.next().is_none(), "[C01 C03 C05 empty-buffered] a buffered pull with a positive chunk size on an empty array reports the end (and does not panic)"); }
+        let mut calls = 0;
+        it.for_each(2, |_| calls += 1);
+        it.enumerate_for_each(1, |_, _| calls += 1);
+        let acc = it.fold(3, 7usize, |a, _| a + 1);
+        assert!(calls == 0 && acc == 7, "[C12 C01 empty-for-each] for_each / fold on an empty array return at once without calling the function");
+        let mut s = it.into_seq_iter();
+        assert!(s.next().is_none(), "[C10 empty-seq] the remainder of an empty array is empty");
+    }
+
+    // @harness name=array_one props=C01,C02,C03,C08 kind=complete
+    #[kani::proof]
+    #[kani::unwind(4)]
+    fn array_one() {
+        let it = ConIterOfArray::<1, D>::new([D(0)]);
+        let which: bool = kani::any();
+        if which {
+            let x = it.next_id_and_value();
+            assert!(x.is_some() && x.as_ref().unwrap().idx == 0 && x.as_ref().unwrap().value.0 == 0, "[C01 C02 one-next] the single element is delivered with index 0");
+            std::mem::forget(x);
+            assert!(it.next().is_none(), "[C01 C05 one-end] then the end is reported");
+            drop(it);
+            assert!(drops()[0] == 0, "[C08 one-ledger] the delivered element is not dropped by the iterator");
+        } else {
+            { let mut b = it.buffered_iter(4); let ch = b.next(); assert!(ch.is_some(), "[C03 one-chunk] a chunk larger than the array delivers the single element"); let mut ch = ch.unwrap(); assert!(ch.begin_idx == 0 && ch.values.len() == 1, "[C02 C03 one-chunk] begin 0, length 1"); drop(ch); }
+            drop(it);
+            assert!(drops()[0] == 1, "[C08 one-ledger] the unconsumed chunk element is destroyed exactly once");
+        }
     }
 }
